@@ -15,6 +15,8 @@ import StarsimModel.Generated.ParsRefs
 import StarsimModel.Model.ParsSim
 import StarsimModel.Generated.ParsSimLevel
 import StarsimModel.Lemmas.ParsTime
+import StarsimModel.Lemmas.ParsModTime
+import StarsimModel.Generated.ParsModTime
 
 namespace StarsimModel.C17
 open StarsimModel.Pars
@@ -931,5 +933,64 @@ example :
     genCtor { v := some 40, unit := some "wk", selfDt := some 1 } = .ok ⟨40, some "week", none, none, some 1, false⟩ := by decide
 
 end TimeParFields
+
+/-! ## Round 6 — timeline arguments of a module (`unit`, `dt`) in every spelling
+
+`Gen.timeInitSteps` is the head of `Time.init(sim)` in SOURCE ORDER, `Gen.unitTable` the regenerated name table, `Gen.timeMismatchDt` the
+constant used when the units differ.  All statements are for EVERY sim timeline, supplied dt and pair of names. -/
+section ModuleTime
+open StarsimModel.ParsTime StarsimModel.ParsModTime
+
+/-- the head of `Time.init` on the regenerated facts -/
+abbrev genTimeInit (s : ST) (m : MT) : Res := timeInit Gen.unitTable Gen.timeMismatchDt s Gen.timeInitSteps m
+
+/-- the unit name is normalised before anything reads it (the regenerated statement order) -/
+theorem C17_module_time_structure :
+    Gen.timeInitSteps = [.normalizeUnit, .inheritFromSim] ∧ Gen.validateUnitStrict = true := by decide
+
+/-- **All names of a unit are one spelling**: two supplied unit names that the documented table maps to the same unit (`'year'`,
+    `'years'`, `'yr'`, `'y'`; two non-names alike) resolve to the SAME module timeline — unit, dt — in every sim, with or without an own dt. -/
+theorem C17_module_unit_spellings (s : ST) (n1 n2 : UVal) (dt : Option Rat)
+    (h : lookup Gen.unitTable n1 = lookup Gen.unitTable n2) : genTimeInit s ⟨n1, dt⟩ = genTimeInit s ⟨n2, dt⟩ := by
+  unfold genTimeInit; rw [C17_module_time_structure.1]; exact timeInit_spellings _ _ _ _ _ _ _ h
+
+/-- **A unit that is a name of the sim's unit (or not given at all) leaves the sim's timeline in effect**: the module's unit is the
+    sim's, a supplied dt is kept, and without one the SIM's dt is in effect (never the fallback). -/
+theorem C17_module_dt_inherited (s : ST) (n : UVal) (dt : Option Rat)
+    (h : lookup Gen.unitTable n = some s.unit ∨ n = none) : genTimeInit s ⟨n, dt⟩ = .ok ⟨s.unit, some (dt.getD s.dt)⟩ := by
+  unfold genTimeInit; rw [C17_module_time_structure.1]
+  rcases h with h | h
+  · exact timeInit_same_unit _ _ _ _ _ h
+  · subst h; exact timeInit_not_given _ _ _ _ (by decide)
+
+/-- the explicit spelling of an inherited value is the same configuration: `unit=<any name of the sim's unit>` ≡ no unit; `dt=<sim dt>` ≡ no dt -/
+theorem C17_module_explicit_default_equiv (s : ST) (n : UVal) (h : lookup Gen.unitTable n = some s.unit) :
+    genTimeInit s ⟨n, none⟩ = genTimeInit s ⟨none, none⟩ ∧ genTimeInit s ⟨n, some s.dt⟩ = genTimeInit s ⟨none, none⟩ := by
+  rw [C17_module_dt_inherited s n none (.inl h), C17_module_dt_inherited s n (some s.dt) (.inl h), C17_module_dt_inherited s none none (.inr rfl)]
+  simp
+
+/-- a name of ANOTHER unit: that unit is in effect with the supplied dt (else the regenerated fallback); a non-name is rejected -/
+theorem C17_module_other_unit_applied (s : ST) (n : UVal) (c : String) (dt : Option Rat)
+    (h : lookup Gen.unitTable n = some (some c)) (hne : some c ≠ s.unit) :
+    genTimeInit s ⟨n, dt⟩ = .ok ⟨some c, some (dt.getD Gen.timeMismatchDt)⟩ := by
+  unfold genTimeInit; rw [C17_module_time_structure.1]; exact timeInit_other_unit _ _ _ _ _ _ h hne
+
+theorem C17_module_unit_unknown_rejected (s : ST) (n : UVal) (dt : Option Rat) (h : lookup Gen.unitTable n = none) :
+    genTimeInit s ⟨n, dt⟩ = .err .keyNotFound := by
+  unfold genTimeInit; rw [C17_module_time_structure.1]; exact timeInit_unknown _ _ _ _ _ _ h
+
+/-- non-vacuity on the regenerated table, and why the ORDER matters: with "inherit, then normalise" the alias `'years'` in a quarterly
+    year-sim compares unequal to the sim's `'year'` and silently gets the fallback dt while `'year'` gets 1/4 -/
+example :
+    genTimeInit ⟨some "year", 1/4⟩ ⟨some "years", none⟩ = .ok ⟨some "year", some (1/4)⟩ ∧
+    genTimeInit ⟨some "year", 1/4⟩ ⟨some "y", none⟩ = genTimeInit ⟨some "year", 1/4⟩ ⟨none, none⟩ ∧
+    genTimeInit ⟨some "day", 2⟩ ⟨some "d", some 7⟩ = .ok ⟨some "day", some 7⟩ ∧
+    genTimeInit ⟨some "year", 1/4⟩ ⟨some "wk", none⟩ = .ok ⟨some "week", some 1⟩ ∧
+    genTimeInit ⟨some "year", 1/4⟩ ⟨some "Years", none⟩ = .err .keyNotFound ∧
+    timeInit Gen.unitTable 1 ⟨some "year", 1/4⟩ [.inheritFromSim, .normalizeUnit] ⟨some "years", none⟩ = .ok ⟨some "year", some 1⟩ ∧
+    timeInit Gen.unitTable 1 ⟨some "year", 1/4⟩ [.inheritFromSim, .normalizeUnit] ⟨some "year", none⟩ = .ok ⟨some "year", some (1/4)⟩ := by
+  decide +kernel
+
+end ModuleTime
 
 end StarsimModel.C17
